@@ -6,7 +6,7 @@
    2. the signature parser needs at most (number of opening brackets + 1) nested entries of the type
       rule (parse_depth_le_opens) and exactly n + 1 on n opening square brackets (parse_depth_opens). *)
 From Coq Require Import ZifyN ZifyNat ZifyBool.
-From QV Require Import DepthCost.
+From QV Require Import TotalProofs DepthCost.
 Local Open Scope N_scope.
 
 (* ================= 1a. sig_copy has the outcome of sig_read ================= *)
@@ -456,3 +456,130 @@ Section SigCopyOk.
     copied (fst (sig_copy parse c fuel t bs)) <= nest (fst (sig_copy parse c fuel t bs)) * blen bs.
   Proof. intros fuel t bs. apply (mul_le_r _ _ _ _ (sig_copy_bound fuel t bs)). apply used_le. Qed.
 End SigCopyOk.
+
+(* ================= 1c. the nesting of a type that holds no dynamic value ================= *)
+Section NestLoops.
+  Variable p : bytes -> mres bytes.
+  Variable D : N.
+  Hypothesis Hp : forall b, nest (fst (p b)) <= D.
+
+  Lemma mrep_nat_nest : forall k bs, nest (fst (mrep_nat p k bs)) <= D.
+  Proof.
+    induction k as [|k IH]; intro bs; cbn [mrep_nat]; [cbn; lia|].
+    pose proof (Hp bs) as Hx. destruct (p bs) as [m [[x rest]|l| |]]; cbn [fst] in Hx |- *; try exact Hx.
+    pose proof (IH rest) as Hr. destruct (mrep_nat p k rest) as [m' r']. cbn [fst madd charge nest] in Hr |- *. lia.
+  Qed.
+
+  Lemma mrep_slow_nest : forall fuel n bs acc ma, nest ma <= D -> nest (fst (mrep_slow p fuel n bs acc ma)) <= D.
+  Proof.
+    induction fuel as [|f IH]; intros n bs acc ma Hma; cbn [mrep_slow].
+    - destruct (n =? 0); exact Hma.
+    - destruct (n =? 0); [exact Hma|].
+      pose proof (Hp bs) as Hx. destruct (p bs) as [m [[d bs']|l| |]]; cbn [fst madd nest] in Hx |- *; try lia.
+      destruct (Nat.ltb (List.length bs') (List.length bs)).
+      + apply IH. cbn [madd charge nest]. lia.
+      + cbn [fst nest]. lia.
+  Qed.
+
+  Lemma mrep_nest : forall n bs, nest (fst (mrep p n bs)) <= D.
+  Proof.
+    intros n bs. unfold mrep. destruct (N.of_nat (List.length bs) <? n).
+    - apply mrep_slow_nest. cbn. lia.
+    - apply mrep_nat_nest.
+  Qed.
+
+  Lemma mvar_nest : forall bs, nest (fst (mvar p bs)) <= 1 + D.
+  Proof.
+    intro bs. unfold mvar. destruct (read_num 4 bs) as [[n r]|l| |]; try (cbn [fst nest]; lia).
+    pose proof (mrep_nest n r) as Hr. destruct (mrep p n r) as [m x]. cbn [fst deeper charge nest] in Hr |- *. lia.
+  Qed.
+End NestLoops.
+
+Lemma mseq_with_nest : forall D ps, Forall (fun p : bytes -> mres bytes => forall b, nest (fst (p b)) <= D) ps ->
+  forall bs, nest (fst (mseq_with ps bs)) <= D.
+Proof.
+  intros D ps HF. induction HF as [|p ps' Hp HF' IH]; intro bs; cbn [mseq_with]; [cbn; lia|].
+  pose proof (Hp bs) as Hx. destruct (p bs) as [m [[x rest]|l| |]]; cbn [fst] in Hx |- *; try exact Hx.
+  pose proof (IH rest) as Hr. destruct (mseq_with ps' rest) as [m' r']. cbn [fst madd charge nest] in Hr |- *. lia.
+Qed.
+
+Lemma mentry_nest : forall Dk Dv (pk pv : bytes -> mres bytes),
+  (forall b, nest (fst (pk b)) <= Dk) -> (forall b, nest (fst (pv b)) <= Dv) ->
+  forall b, nest (fst (mentry pk pv b)) <= 1 + N.max Dk Dv.
+Proof.
+  intros Dk Dv pk pv Hk Hv b. unfold mentry.
+  pose proof (Hk b) as Hx. destruct (pk b) as [mk [[k r1]|l| |]]; cbn [fst deeper nest] in Hx |- *; try lia.
+  pose proof (Hv r1) as Hy. destruct (pv r1) as [mv [[v r2]|l| |]]; cbn [fst deeper madd charge nest] in Hy |- *; lia.
+Qed.
+
+Lemma mleaf_nest : forall r, nest (fst (mleaf r)) = 1.
+Proof. intros [[d rest]|l| |]; reflexivity. Qed.
+
+Lemma fold_max_in : forall {X} (g : X -> N) (l : list X) x, In x l -> g x <= fold_right (fun y a => N.max (g y) a) 0 l.
+Proof.
+  intros X g l x. induction l as [|y l IH]; intro Hin; [destruct Hin|].
+  cbn [fold_right]. destruct Hin as [->|Hin]; [lia|]. specialize (IH Hin). lia.
+Qed.
+
+Section BodyNest.
+  Variable c : wcfg.
+  Variable dyn obj : bytes -> mres bytes.
+  Variables Dd Do : N.
+  Hypothesis Hobj : forall b, nest (fst (obj b)) <= Do.
+
+  Lemma sig_copy_body_nest : forall t,
+    plain_m t = true \/ (forall b, nest (fst (dyn b)) <= Dd) ->
+    forall bs, nest (fst (sig_copy_body c dyn obj t bs)) <= rdepth_g Dd Do t.
+  Proof.
+    induction t as [s|t' IH|tk tv IHk IHv|ts IH|name fs IH] using ty_ind2; intros Hd bs.
+    - destruct s; cbn [sig_copy_body rdepth_g]; try (rewrite mleaf_nest; lia).
+      + destruct Hd as [Hd|Hd]; [discriminate Hd|apply Hd].
+      + apply Hobj.
+    - cbn [sig_copy_body rdepth_g]. apply mvar_nest. apply IH. exact Hd.
+    - cbn [sig_copy_body rdepth_g]. replace (2 + N.max (rdepth_g Dd Do tk) (rdepth_g Dd Do tv))
+        with (1 + (1 + N.max (rdepth_g Dd Do tk) (rdepth_g Dd Do tv))) by lia.
+      apply mvar_nest. apply mentry_nest.
+      + apply IHk. destruct Hd as [Hd|Hd]; [left|right; exact Hd]. cbn [plain_m] in Hd. apply andb_true_iff in Hd. tauto.
+      + apply IHv. destruct Hd as [Hd|Hd]; [left|right; exact Hd]. cbn [plain_m] in Hd. apply andb_true_iff in Hd. tauto.
+    - cbn [sig_copy_body rdepth_g]. unfold mcat. cbn [fst deeper nest].
+      set (D := fold_right (fun t a => N.max (rdepth_g Dd Do t) a) 0 ts).
+      enough (H : nest (fst (mseq_with (map (sig_copy_body c dyn obj) ts) bs)) <= D) by lia.
+      apply mseq_with_nest. apply Forall_forall. intros q Hq. apply in_map_iff in Hq as (t & <- & Hin).
+      intro b. rewrite Forall_forall in IH. apply (N.le_trans _ (rdepth_g Dd Do t)).
+      + apply IH; [exact Hin|]. destruct Hd as [Hd|Hd]; [left|right; exact Hd].
+        cbn [plain_m] in Hd. rewrite forallb_forall in Hd. apply Hd. exact Hin.
+      + apply (fold_max_in (rdepth_g Dd Do) ts t Hin).
+    - cbn [sig_copy_body rdepth_g]. unfold mcat. cbn [fst deeper nest].
+      set (D := fold_right (fun f a => N.max (rdepth_g Dd Do (snd f)) a) 0 fs).
+      enough (H : nest (fst (mseq_with (map (fun f => sig_copy_body c dyn obj (snd f)) fs) bs)) <= D) by lia.
+      apply mseq_with_nest. apply Forall_forall. intros q Hq. apply in_map_iff in Hq as (f & <- & Hin).
+      intro b. rewrite Forall_forall in IH. apply (N.le_trans _ (rdepth_g Dd Do (snd f))).
+      + apply IH; [exact Hin|]. destruct Hd as [Hd|Hd]; [left|right; exact Hd].
+        cbn [plain_m] in Hd. rewrite forallb_forall in Hd. apply (Hd f). exact Hin.
+      + apply (fold_max_in (fun f => rdepth_g Dd Do (snd f)) fs f Hin).
+  Qed.
+End BodyNest.
+
+Lemma sig_copy_obj_nest : forall c b, nest (fst (sig_copy_obj c b)) <= rdepth_obj.
+Proof.
+  intros c b. unfold sig_copy_obj, rdepth_obj. apply sig_copy_body_nest.
+  - intro b'. cbn. lia.
+  - right. intro b'. cbn. lia.
+Qed.
+
+(* a type that holds no dynamic value: the nesting is the type's, whatever the input *)
+Theorem sig_copy_nest_static : forall parse c fuel t bs, plain_m t = true ->
+  nest (fst (sig_copy parse c fuel t bs)) <= rdepth t.
+Proof.
+  intros parse c fuel t bs Ht. unfold rdepth.
+  destruct fuel as [|f]; cbn [sig_copy]; apply sig_copy_body_nest; try apply sig_copy_obj_nest; left; exact Ht.
+Qed.
+
+(* hence, for such a type, linear: at most rdepth t copies of every input byte *)
+Corollary sig_copy_static_linear : forall parse c fuel t bs,
+  string_reader_drops_err c = false -> plain_m t = true ->
+  copied (fst (sig_copy parse c fuel t bs)) <= rdepth t * blen bs.
+Proof.
+  intros parse c fuel t bs Hde Ht.
+  apply (mul_le_l _ _ _ _ (sig_copy_bound_len parse c Hde fuel t bs)). apply sig_copy_nest_static. exact Ht.
+Qed.
